@@ -154,6 +154,10 @@ theorem step_callback {fuel : Nat} (ih : Specs A B fuel) :
       have h := modify_bind_inv h
       replace hG := hG.set_tasks (s.tasks ++ [Task.asyncWrite c (parseHexSegs arg).flatten])
       mcheck; exact fin _ () hG h
+    · -- asyncwritev
+      have h := modify_bind_inv h
+      replace hG := hG.set_tasks (s.tasks ++ [Task.asyncWritev c (parseHexSegs arg)])
+      mcheck; exact fin _ () hG h
     · -- wake
       have h := modify_bind_inv h
       replace hG := hG.set_tasks (s.tasks ++ [Task.wake c])
